@@ -6,6 +6,9 @@
      na <file:str> <logger:str> nstmts stmt*
         stmt := ts level lineno lvl:str tpl:str nargs (tag len payload..)* ntab (spec:str idx ok out:str)*
                                        -> per stmt: 1 err text:str nonempty npairs (k:str v:str)* json:str 1
+   Every entry point takes the variant flags first (esc: NaJson.json_sink_line, skip: NaModel.scan_hole);
+   the runner's "na" / "nascan" / "naneeds" are the pinned variants (esc = false, skip = true) and
+   "nav e k ..." / "nascanv k ..." / "naneedsv k ..." take the flags as leading 0/1 arguments.
    The oracle apply_spec is the table carried by the statement (filled by the harness from the
    real fmtquill); an argument is (index, tag) and is string related when its tag is 2 (string)
    or 3 (char), as DynamicFormatArgStore::push_back decides. *)
@@ -34,9 +37,9 @@ Fixpoint take_many {A} (k : nat) (f : list N -> A * list N) (l : list N) : list 
 Definition enc_keys (ks : list (str * str)) : list N :=
   N.of_nat (length ks) :: flat_map (fun kv => enc_str (fst kv) ++ enc_str (snd kv)) ks.
 
-Definition na_scan_enc (l : list N) : list N :=
+Definition na_scan_enc (skip : bool) (l : list N) : list N :=
   let '(t, _) := take_str l in
-  let '(f, ks) := scan t in
+  let '(f, ks) := scan skip t in
   (if contains_named t then 1 else 0) :: enc_str f ++ enc_keys ks.
 
 (* ---- naneeds ---- *)
@@ -49,18 +52,18 @@ Fixpoint index_from (i : nat) (l : list str) (nargs : nat) : list (str * nat) :=
   | x :: r => if Nat.ltb i nargs then (x, i) :: index_from (S i) r nargs else []
   end.
 
-Definition needs (t : str) (nargs : nat) : list (str * nat) :=
+Definition needs (skip : bool) (t : str) (nargs : nat) : list (str * nat) :=
   if contains_named t then
-    let '(f, names) := scan t in
+    let '(f, names) := scan skip t in
     index_from 0 (parsed_specs f) nargs ++
     index_from 0 (parsed_specs (build_fmt (named_specs names nargs))) nargs
   else index_from 0 (parsed_specs t) nargs.
 
-Definition na_needs_enc (l : list N) : list N :=
+Definition na_needs_enc (skip : bool) (l : list N) : list N :=
   let '(n, l1) := take_n l in
   let '(stmts, _) := take_many (N.to_nat n)
      (fun l => let '(t, l') := take_str l in let '(k, l'') := take_n l' in ((t, N.to_nat k), l'')) l1 in
-  flat_map (fun s => let nd := needs (fst s) (snd s) in
+  flat_map (fun s => let nd := needs skip (fst s) (snd s) in
                      N.of_nat (length nd) :: flat_map (fun p => enc_str (fst p) ++ [N.of_nat (snd p)]) nd)
            stmts.
 
@@ -105,25 +108,25 @@ Definition take_stmt (l : list N) : stmt * list N :=
   let '(tb, l9) := take_many (N.to_nat nt) take_tab l8 in
   ({| s_ts := ts; s_line := ln; s_lvl := lvl; s_tpl := t; s_args := number 0 tags; s_tbl := tb |}, l9).
 
-Definition enc_result (file logger : str) (s : stmt) (r : result) : list N :=
+Definition enc_result (esc : bool) (file logger : str) (s : stmt) (r : result) : list N :=
   let h := {| h_ts := decN (s_ts s); h_file := file; h_line := decN (s_line s);
               h_tid := [48]; h_logger := logger; h_level := s_lvl s |} in
   1 :: (match r_text r with Some x => 0 :: enc_str x | None => [1; 0] end) ++
   (match r_named r with Some (p :: ps) => 1 :: enc_keys (p :: ps) | _ => [0; 0] end) ++
-  enc_str (json_line h (s_tpl s) (r_named r)) ++ [1].
+  enc_str (json_sink_line esc h (s_tpl s) (r_named r)) ++ [1].
 
 (* the cache is threaded through the statements of a case; each statement has its own oracle *)
-Fixpoint run_stmts (file logger : str) (c : cache) (l : list stmt) : list N :=
+Fixpoint run_stmts (esc skip : bool) (file logger : str) (c : cache) (l : list stmt) : list N :=
   match l with
   | [] => []
   | s :: r =>
-    let '(c', x) := process targ (tbl_apply (s_tbl s)) targ_is_string c (s_tpl s) (s_args s) in
-    enc_result file logger s x ++ run_stmts file logger c' r
+    let '(c', x) := process targ (tbl_apply (s_tbl s)) targ_is_string skip c (s_tpl s) (s_args s) in
+    enc_result esc file logger s x ++ run_stmts esc skip file logger c' r
   end.
 
-Definition na_run_enc (l : list N) : list N :=
+Definition na_run_enc (esc skip : bool) (l : list N) : list N :=
   let '(file, l1) := take_str l in
   let '(logger, l2) := take_str l1 in
   let '(n, l3) := take_n l2 in
   let '(stmts, _) := take_many (N.to_nat n) take_stmt l3 in
-  run_stmts file logger [] stmts.
+  run_stmts esc skip file logger [] stmts.
